@@ -5,6 +5,7 @@ mod c01;
 mod c02;
 mod c22;
 mod c23;
+mod c28;
 mod c29;
 mod corrupt;
 
@@ -16,6 +17,7 @@ fn main() {
         "c02" => c02::run(&args),
         "c22" => c22::run(&args),
         "c23" => c23::run(&args),
+        "c28" => c28::run(&args),
         "c29" => c29::run(&args),
         s => {
             eprintln!("unknown stage {s}");
